@@ -120,11 +120,20 @@ mod native {
                         s.peers.insert(format!("10.0.{}.{}:1", kind, k), p);
                         k += 1;
                     } }
+                    // each peer's view of the choke state: what it was told so far (C14 "each peer's view agrees with the client's")
+                    let mut rx = s.general_channels.broad.subscribe();
+                    let mut view: std::collections::HashMap<String, bool> = s.peers.iter().map(|(a, p)| (a.clone(), p.am_choked)).collect();
                     for round in 0..3 {
                         s.timeout_change_conn_state().await.expect("rotation failed");
                         let (regular, optimistic) = count_slots(&s);
                         assert!(regular <= 10 && optimistic <= 1,
                             "after rotation {} of a table with kinds {:?}: {} regular upload slots, {} optimistic unchokes", round + 1, c, regular, optimistic);
+                        while let Ok(cmd) = rx.try_recv() {
+                            if let BroadCmd::SendOwnState { am_choked_map } = cmd { for (a, st) in am_choked_map { view.insert(a, st); } }
+                        }
+                        for (a, p) in s.peers.iter() {
+                            assert!(view[a] == p.am_choked, "after rotation {} of a table with kinds {:?}: peer {} was told choked={} but the client has am_choked={}", round + 1, c, a, view[a], p.am_choked);
+                        }
                     }
                     tables += 1;
                 }
@@ -140,5 +149,26 @@ mod native {
             }
         });
         assert!(tables > 5000, "only {} tables", tables);
+    }
+
+    // BOUNDED second line behind SESS/Session::new/nothing_owned_nothing_reserved (C01: a piece is owned only after verified data has
+    // been stored in THIS run's bookkeeping): leftover <hash>.piece files of any content in the working directory do not make a new
+    // manager own anything
+    #[test]
+    fn native_c01_session_starts_with_nothing_owned() {
+        let dir = std::path::PathBuf::from(format!("/verif/.cache/native-tmp/c01-{}", std::process::id()));
+        let _ = std::fs::remove_dir_all(&dir);
+        std::fs::create_dir_all(&dir).unwrap();
+        std::env::set_current_dir(&dir).unwrap();
+        for n in 1..=4usize {
+            let m = torrent(n);
+            for i in 0..n { std::fs::write(crate::utils::hash_to_string(m.piece(i)) + ".piece", if i % 2 == 0 { &b"junk"[..] } else { &b""[..] }).unwrap(); }
+            let s = Session::new(m, [1u8; PEER_ID_SIZE]);
+            assert!(s.pieces_status.len() == n && s.pieces_status.iter().all(|st| *st == Status::Missing),
+                "a new manager owns / reserves pieces before anything was downloaded: {:?}", s.pieces_status);
+            assert!(s.peers.is_empty());
+        }
+        std::env::set_current_dir("/").unwrap();
+        let _ = std::fs::remove_dir_all(&dir);
     }
 }
